@@ -53,3 +53,23 @@ claim("C14",
       "Operation-sequence convergence quantifies over run-time histories and is not decided.",
       "abstract evaluation of the purge name set + syntax-directed normalisation/ordering rules",
       "DESIGN.md §4 C14")
+claim("C03",
+      "Decides necessary conditions of right-closed, right-labelled resampling for all timestamps: the merge aggregator by value numbering; for every branch of the collapse walk (interpreted once with a symbolic window) the label the candle is filed under satisfies label - tf < ts <= label and lies on the bucket grid, proved in the polyhedra domain with the rounding axioms, and the window invariant is re-established; every path places the popped candle exactly once; merges go to the last bucket only; the two bucket-edge helpers are floor-division/modulo of one elapsed-time expression; a Hexital gives each timeframe its own deep copy. The walk's loop invariant over run-time timestamps is not decided.",
+      "Assumes whole-second timestamps (clean_timestamp identity) and non-decreasing input. That (start,end] stays aligned with the last bucket for every pattern/append composition is a loop invariant and not decided.",
+      "abstract interpretation with symbolic window + Fourier-Motzkin entailment per branch; value numbering of merge and bucket helpers",
+      "DESIGN.md §4 C03")
+claim("C11",
+      "Decides the HA formulas on both cases by flow-sensitive value numbering of convert_candle's post-state, the conversion typestate (save -> convert -> reset -> tag, once per candle, ascending), the soundness of the resume scan's fall-through, statelessness of the shared converter, merge's restore/clear protocol and the task order. Equality with the recurrence under every append composition is not decided.",
+      "Equality under all append compositions (and combined with collapsing) quantifies over histories and is not decided.",
+      "value numbering of the post-state + typestate/ordering rules + resume-scan shape rule",
+      "DESIGN.md §4 C11")
+claim("C12",
+      "Decides the fill candle's six slots, the gap test as a value-number comparison on full timestamps, the cursor discipline (start 1, +1, to len), that filling only inserts fresh candles and keeps no state, and that every normal exit of a collapse pass goes through fill when enabled. Contiguity/schedule independence for every gap pattern is not decided.",
+      "Contiguity from first to last bucket and schedule independence are loop properties over run-time data and are not decided.",
+      "syntax-directed slot/cursor rules + value-number comparison of the gap test + must-pass-through",
+      "DESIGN.md §4 C12")
+claim("C15",
+      "Decides that trim pops only from the front while oldest < newest - lifespan (strict, raw timestamps; value-number comparison of the loop test), runs last of the three tasks on construction and every append, and that no formula lets the absolute candle position enter a value (so front pops shift indices uniformly). Equality of retained readings with an untrimmed twin is not decided.",
+      "Retained readings vs an untrimmed twin depends on run-time window contents and is not decided.",
+      "value numbering of the trim predicate + ordering rule + position-taint analysis",
+      "DESIGN.md §4 C15")
